@@ -122,9 +122,10 @@ def _edge_constraints(body, block):
     """[(subject, discriminant value)] of the switch edges that dominate `block`"""
     out = []
     dom = body.dominators()
+    try_switches = {e["switch_block"] for e in M.try_edges(body)}
     for w in sorted(dom.get(block, ())):
         sw = body.term(w)
-        if sw["k"] != "switch" or w == block:
+        if sw["k"] != "switch" or w == block or w in try_switches:
             continue
         dl = op_local(sw["discr"])
         if dl is None:
@@ -133,6 +134,10 @@ def _edge_constraints(body, block):
         for bb, i, d in M.def_sites(body, dl):
             if i != "term" and d["rv"]["k"] == "discr":
                 subj = _subject(body, d["rv"]["pl"])
+        if subj is None and body.local_ty(dl) == "bool":
+            o = panics.operand_origin(body, sw["discr"])
+            if o.startswith("field "):
+                subj = o          # a boolean field tested directly
         if subj is None:
             continue
         edges = [(v, tg) for v, tg in sw["targets"]] + [("otherwise", sw["otherwise"])]
@@ -452,4 +457,122 @@ def docs_operations_rule(crate, prop, rule="C15.R1"):
                            "%s is applied to documentation text (%s): a doc comment could influence what is declared" % (M.callee(t), desc), f, l)
     r.stats = {"operations_on_docs": n}
     r.floor = 10
+    return r
+
+
+# ------------------------------------------------------------------ enum representations
+
+VARIANT_SHAPES = [
+    (r'^"\{\}"$', ["name"], "unit, externally tagged"),
+    (r'^\{\{ "\{\}": \{\} \}\}$', ["name", "payload"], "externally tagged"),
+    (r'^\{\{ "\{\}": "\{\}" \}\}$', ["tag", "name"], "tag only"),
+    (r'^\{\{ "\{\}": "\{\}", "\{\}": \{\} \}\}$', ["tag", "name", "content", "payload"], "adjacently tagged"),
+    (r'^\{\{ "\{\}": "\{\}" \}\} & \{\}$', ["tag", "name", "payload"], "internally tagged"),
+]
+
+
+def _role(body, local, proj):
+    o = panics.operand_origin(body, {"k": "copy", "pl": {"l": local, "p": list(proj or [])}})
+    if re.search(r"Tagged\.(Adjacently|Internally)::tag$", o):
+        return "tag", o
+    if re.search(r"Tagged\.Adjacently::content$", o):
+        return "content", o
+    if re.search(r"crate_rename$", o) or re.search(r"syn::Path$", body.local_ty(local)):
+        return "crate", o
+    calls, _, _ = M.deep_slice(body, local, component=_comp(proj))
+    if any(fn_matches(c, r"utils::escaped_name$", r"utils::make_string_literal$", r"Inflection::apply_to_variant$") for _, c in calls) and not any(fn_matches(c, r"types::type_def$") for _, c in calls if False):
+        # the name; a payload also depends on type_def(name, ..) - told apart by what was computed last
+        last = origins(body, local, transparent=True, component=_comp(proj))
+        if any(o2["kind"] == "call" and fn_matches(o2["t"], r"utils::escaped_name$", r"utils::make_string_literal$") for o2 in last):
+            return "name", o
+    return "payload", o
+
+
+def variant_rule(crate, prop, rule="C01.R3"):
+    r = Result(rule, "enum representations, read off the alternatives of the value format_variant pushes (MIR, helpers included): each alternative's format string is one of serde's five shapes and its slots are filled, in order, with exactly the roles the shape names (tag and content are recognised by where they come from: the fields of Tagged::Adjacently / Tagged::Internally; the name by escaped_name(..)); an alternative without a name is only reached for untagged variants / enums (or the tagged struct body of an internally tagged variant); one with a name never is; an alternative without payload is not reached for a variant that is known to carry one, and one with payload not for a unit variant")
+    b = crate.ibody(VARIANT_FN)
+    if b is None:
+        r.fail(prop, "anchor-missing format_variant", "not found")
+        return r
+    tpls = Q.templates(b)
+    pushes = [(blk, t) for blk, t in b.calls() if not b.is_cleanup(blk) and fn_matches(t, r"vec::Vec::<T, A>::push$", r"Vec::<T>::push$") and "TokenStream" in (t.get("arg_tys") or ["", ""])[1]
+              and "Vec<proc_macro2::TokenStream>" in (t.get("arg_tys") or [""])[0]]
+    n = 0
+    for blk, t in pushes:
+        if panics.operand_origin(b, t["args"][0]).startswith("param") is False:
+            continue
+        vl = op_place(t["args"][1])
+        if vl is None:
+            continue
+        for ablk, sl, others in _alternatives(b, vl["l"]):
+            tp = _stream_of(b, sl, tpls)
+            if tp is None:
+                r.inst(fn=VARIANT_FN, alternative="(not a template)", verdict="undecided")
+                continue
+            n += 1
+            fc = S.format_calls(tp.tokens)
+            lit = S.unquote(fc[0][0]) if fc else None
+            roles = [_role(b, l, pj)[0] for (_, l, _), pj in zip(tp.interps, tp.projs)]
+            slot_roles = [x for x in roles if x != "crate"]
+            cons = _edge_constraints(b, ablk)
+            untag = [v for s, v in cons if re.search(r"VariantAttr\.untagged$", s)]
+            tagged = [v for s, v in cons if re.search(r"EnumAttr::tagged$", s)]
+            fields = [v for s, v in cons if re.search(r"syn::Variant\.fields$", s)]
+            skip = [v for s, v in cons if re.search(r"FieldAttr\.skip$", s)]
+            verdict, why = "ok", ""
+            if lit is None:
+                if slot_roles != ["payload"]:
+                    verdict, why = "BAD", "a pass-through alternative interpolates %s" % slot_roles
+                elif (0 in untag or not untag) and any(v in (0, 1) for v in tagged) and not (1 in untag):
+                    verdict, why = "BAD", "the payload alone is emitted for an externally / adjacently tagged variant"
+            else:
+                shape = next((sh for sh in VARIANT_SHAPES if re.match(sh[0], lit)), None)
+                if shape is None:
+                    verdict, why = "BAD", "format string %r is none of serde's representations" % lit
+                elif slot_roles != shape[1]:
+                    verdict, why = "BAD", "format string %r (%s) expects %s in this order, the slots carry %s" % (lit, shape[2], shape[1], slot_roles)
+                else:
+                    if 1 in untag or 3 in tagged:
+                        verdict, why = "BAD", "a named representation is emitted for an untagged variant / enum"
+                    if "payload" not in slot_roles and (0 in fields) and not (1 in skip):
+                        verdict, why = "BAD", "a struct variant is emitted without its payload"
+                    if "payload" in slot_roles and 2 in fields:
+                        verdict, why = "BAD", "a unit variant is emitted with a payload"
+                    if "payload" in slot_roles and 1 in skip:
+                        verdict, why = "BAD", "the payload of a newtype variant whose field is skipped is emitted"
+            r.inst(fn=VARIANT_FN, format=lit, slots=slot_roles, under={"variant untagged": untag, "tagged() (0 ext, 1 adj, 2 int, 3 untagged)": tagged, "fields (0 named, 1 unnamed, 2 unit)": fields, "field skip": skip},
+                   verdict=verdict, where="%s:%s" % (tp.file, tp.line))
+            if verdict == "BAD":
+                r.fail(prop, "variant-matrix %s" % (lit if lit is not None else "pass-through"), why + " (format_variant, template at line %s)" % tp.line, tp.file, tp.line)
+    if n == 0:
+        r.fail(prop, "anchor-missing variant templates", "no template reaches formatted_variants.push(..) in format_variant", b.file(), b.line())
+    r.floor = 8
+    return r
+
+
+def variant_name_flow_rule(crate, prop, rule="C09.R5"):
+    """the name computed for a variant (rename, else the enum's rename_all applied to the identifier) is the name every
+    representation uses - the struct body of an internally tagged variant included, which writes it as the tag value"""
+    r = Result(rule, "format_variant hands the variant's computed name (explicit rename, else rename_all applied to the identifier) to type_def(), which uses it as the tag value of an internally tagged struct variant: the value passed as type_def's name derives from the rename_all conversion and from the `rename` attribute, not from the bare identifier alone")
+    b = crate.ibody(VARIANT_FN)
+    if b is None:
+        r.fail(prop, "anchor-missing format_variant", "not found")
+        return r
+    calls = [(blk, t) for blk, t in b.calls() if not b.is_cleanup(blk) and fn_matches(t, r"types::type_def$")]
+    if not calls:
+        r.fail(prop, "anchor-missing type_def call", "format_variant does not call type_def", b.file(), b.line())
+    for blk, t in calls:
+        pl = op_place(t["args"][1]) if len(t["args"]) > 1 else None
+        cs, _, _ = M.deep_slice(b, pl["l"]) if pl is not None else ([], set(), [])
+        conv = any(fn_matches(c, r"Inflection::apply_to_variant$") for _, c in cs)
+        ren = any(re.search(r"VariantAttr\.rename$", panics.operand_origin(b, a)) for _, c in cs for a in c["args"]) or \
+            any(re.search(r"VariantAttr\.rename$", panics.operand_origin(b, {"k": "copy", "pl": d[2]["rv"].get("pl") or op_place(d[2]["rv"].get("op", {"k": ""})) or {"l": 0, "p": []}}))
+                for l0 in ([pl["l"]] if pl else []) for d in M.real_defs(b, l0) if d[1] != "term" and d[2]["rv"]["k"] in ("use", "ref"))
+        f, l = M.user_span(t["span"])
+        ok = conv
+        r.inst(fn=VARIANT_FN, where="%s:%s" % (f, l), name_argument_derives_from_rename_all=conv, ok=ok)
+        if not ok:
+            r.fail(prop, "variant-name-not-passed format_variant -> type_def",
+                   "type_def() does not receive the variant's computed name: the tag value of an internally tagged struct variant ignores the enum's rename_all (`\"kind\": \"KeyPress\"` where serde writes `\"key_press\"`)", f, l)
+    r.floor = 1
     return r
